@@ -1,6 +1,14 @@
 //! Engine E, pure part: exhaustive enumeration of finite input grids against reference models.
+//! These run in the checker process itself (no scheduler; hooks ignore unregistered threads).
 
-use serde_json::Value;
+use std::collections::hash_map::DefaultHasher;
+use std::collections::HashSet;
+use std::hash::{Hash, Hasher};
+use std::sync::atomic::Ordering::SeqCst;
+
+use circ::verif as cv;
+use circ::{AtomicRc, AtomicWeak, Rc, RcObject};
+use serde_json::{json, Value};
 
 pub struct PureViolation {
     pub kind: String,
@@ -19,16 +27,664 @@ pub struct PureResult {
     pub machinery: Vec<String>,
     pub assumptions: Vec<String>,
     pub bounds: Value,
-    /// (scenario, kind) of known findings reproduced
-    pub known_hits: Vec<(String, String)>,
+    /// indices (into the known-findings list passed in) of listed findings reproduced
+    pub known_hits: Vec<usize>,
     pub violations: Vec<PureViolation>,
 }
 
-pub fn run(_prop: &str, _tier: &str) -> Option<PureResult> {
-    None
+struct Acc {
+    prop: &'static str,
+    part: &'static str,
+    evals: u64,
+    distinct: HashSet<u64>,
+    viol: Vec<PureViolation>,
+    samples: Vec<Value>,
 }
 
-pub fn replay(_v: &Value) -> i32 {
-    eprintln!("no grid check yet");
-    2
+impl Acc {
+    fn new(prop: &'static str, part: &'static str) -> Acc {
+        Acc {
+            prop,
+            part,
+            evals: 0,
+            distinct: HashSet::new(),
+            viol: vec![],
+            samples: vec![],
+        }
+    }
+    fn case(&mut self, key: u64) {
+        self.evals += 1;
+        self.distinct.insert(key);
+    }
+    fn sample(&mut self, v: Value) {
+        if self.samples.len() < 3 {
+            self.samples.push(v);
+        }
+    }
+    fn fail(&mut self, kind: &str, detail: String) {
+        if self.viol.len() < 5 {
+            self.viol.push(PureViolation {
+                kind: kind.to_string(),
+                detail: detail.clone(),
+                replay: json!({"engine": "E", "property": self.prop, "part": self.part, "kind": kind, "detail": detail}),
+            });
+        }
+    }
+    fn finish(self, r: &mut PureResult) {
+        r.evaluations += self.evals;
+        r.distinct += self.distinct.len() as u64;
+        r.per_part.push(json!({"id": format!("grid/{}", self.part), "evaluations": self.evals, "distinct_cases": self.distinct.len(), "violations": self.viol.len()}));
+        r.samples.extend(self.samples);
+        r.violations.extend(self.viol);
+    }
+}
+
+fn h2(a: u64, b: u64) -> u64 {
+    (a ^ b.rotate_left(32)).wrapping_mul(0x9e3779b97f4a7c15) ^ b
+}
+
+// ------------------------------------------------------------------------------------ C11
+
+#[repr(align(16))]
+#[allow(dead_code)]
+struct A16([u8; 16]);
+#[repr(align(64))]
+#[allow(dead_code)]
+struct A64([u8; 64]);
+
+fn tag_grid<T>(acc: &mut Acc, name: &str) {
+    use cv::tagged as t;
+    let align = t::pointee_align::<T>();
+    let lg = align.trailing_zeros();
+    let mut addrs: Vec<usize> = vec![0];
+    for k in lg..60 {
+        addrs.push(1usize << k);
+    }
+    addrs.push(((1usize << 60) - 1) & !(align - 1));
+    for j in lg..60 {
+        for k in (j + 1)..60 {
+            if (j + k) % 3 == 0 {
+                addrs.push((1usize << j) | (1usize << k));
+            }
+        }
+    }
+    let mut tags: Vec<usize> = (0..2 * align.max(4)).collect();
+    tags.extend([usize::MAX, 1usize << 60, 1usize << 63, (1usize << 60) | 1, !0usize << 3]);
+    let stamps: Vec<usize> = (0..41).collect();
+    for &a in addrs.iter() {
+        for &tg in tags.iter() {
+            for &ts in stamps.iter() {
+                acc.case(h2(a as u64, h2(tg as u64, (ts as u64) << 8 | align as u64)));
+                // compose through the API under test only
+                let w0 = t::with_high_tag::<T>(t::with_tag::<T>(a, tg), ts);
+                let ctx = || format!("{}: addr={:#x} tag={:#x} stamp={}", name, a, tg, ts);
+                if t::tag::<T>(w0) != tg % align {
+                    acc.fail("tag-roundtrip", format!("{}: tag() = {:#x}, expected {:#x}", ctx(), t::tag::<T>(w0), tg % align));
+                }
+                if t::as_raw::<T>(w0) != a {
+                    acc.fail("address-corrupted", format!("{}: as_raw() = {:#x}", ctx(), t::as_raw::<T>(w0)));
+                }
+                if t::high_tag::<T>(w0) != ts % 16 {
+                    acc.fail("stamp-roundtrip", format!("{}: high_tag() = {}", ctx(), t::high_tag::<T>(w0)));
+                }
+                if t::is_null::<T>(w0) != (a == 0) {
+                    acc.fail("null-test", format!("{}: is_null() = {}", ctx(), t::is_null::<T>(w0)));
+                }
+                // the other order of composition gives the same word
+                let w1 = t::with_tag::<T>(t::with_high_tag::<T>(a, ts), tg);
+                if w1 != w0 {
+                    acc.fail("order-dependence", format!("{}: with_tag/with_high_tag do not commute: {:#x} vs {:#x}", ctx(), w0, w1));
+                }
+                // re-tagging and re-stamping replace, never accumulate
+                let w2 = t::with_tag::<T>(w0, tg.wrapping_add(1));
+                if t::tag::<T>(w2) != tg.wrapping_add(1) % align || t::as_raw::<T>(w2) != a || t::high_tag::<T>(w2) != ts % 16 {
+                    acc.fail("retag", format!("{}: re-tagging changed address or stamp", ctx()));
+                }
+                let w3 = t::with_high_tag::<T>(w0, ts + 5);
+                if t::high_tag::<T>(w3) != (ts + 5) % 16 || t::as_raw::<T>(w3) != a || t::tag::<T>(w3) != tg % align {
+                    acc.fail("restamp", format!("{}: re-stamping changed address or tag", ctx()));
+                }
+                // the stamp is invisible
+                if !t::ptr_eq::<T>(w0, w3) || !t::ptr_eq::<T>(w3, w0) {
+                    acc.fail("ptr-eq-sees-stamp", format!("{}: ptr_eq distinguishes stamps", ctx()));
+                }
+                if align > 1 && t::ptr_eq::<T>(w0, w2) {
+                    acc.fail("ptr-eq-ignores-tag", format!("{}: ptr_eq ignores a different tag", ctx()));
+                }
+                if t::fmt_pointer::<T>(w0) != t::fmt_pointer::<T>(t::with_high_tag::<T>(w0, 0))
+                    || t::fmt_pointer::<T>(w0) != format!("{:p}", a as *const T)
+                    || t::fmt_debug::<T>(w0) != format!("{:p}", a as *const T)
+                {
+                    acc.fail("format-sees-stamp-or-tag", format!("{}: formatted as {}", ctx(), t::fmt_pointer::<T>(w0)));
+                }
+            }
+        }
+    }
+    // two different addresses are never ptr_eq, whatever the stamps
+    for i in 0..addrs.len().min(40) {
+        for j in 0..addrs.len().min(40) {
+            if i != j {
+                acc.case(h2(addrs[i] as u64 ^ 0xabc, addrs[j] as u64));
+                let a = t::with_high_tag::<T>(addrs[i], i);
+                let b = t::with_high_tag::<T>(addrs[j], j);
+                if t::ptr_eq::<T>(a, b) {
+                    acc.fail("ptr-eq-different-objects", format!("{}: {:#x} and {:#x} compare equal", name, addrs[i], addrs[j]));
+                }
+            }
+        }
+    }
+    acc.sample(json!({"type": name, "align": align, "addresses": addrs.len(), "tags": tags.len(), "stamps": stamps.len()}));
+}
+
+#[derive(Debug, PartialEq, Eq, PartialOrd, Ord, Hash)]
+struct Item {
+    v: u32,
+}
+unsafe impl RcObject for Item {
+    fn pop_edges(&mut self, _: &mut Vec<Rc<Self>>) {}
+}
+
+#[repr(align(64))]
+#[derive(Debug, PartialEq, Eq, PartialOrd, Ord, Hash)]
+struct Big {
+    v: u32,
+}
+unsafe impl RcObject for Big {
+    fn pop_edges(&mut self, _: &mut Vec<Rc<Self>>) {}
+}
+
+/// The same object stored at 16 consecutive epochs and loaded back: every user-visible
+/// observation agrees across stamps and tags.
+fn tag_public<T: RcObject + std::fmt::Debug + PartialEq + 'static>(acc: &mut Acc, name: &str, mk: fn(u32) -> T) {
+    let max_tag = cv::tagged::counted_align::<T>();
+    if max_tag < cv::tagged::pointee_align::<T>() {
+        acc.fail("tag-bits", format!("{}: fewer tag bits than the payload's alignment provides", name));
+    }
+    let cell: AtomicRc<T> = AtomicRc::null();
+    let wcell: AtomicWeak<T> = AtomicWeak::null();
+    let obj = Rc::new(mk(7));
+    let base_fmt = format!("{:p}", obj);
+    let mut stamps_seen = HashSet::new();
+    for round in 0..16 {
+        for tag in [0usize, 1, max_tag - 1, max_tag, max_tag + 1, usize::MAX] {
+            acc.case(h2(round as u64, h2(tag as u64, max_tag as u64)));
+            let g = circ::cs();
+            let want = tag % max_tag;
+            let tagged = obj.clone().with_tag(tag);
+            if tagged.tag() != want || !tagged.ptr_eq(&obj.clone().with_tag(want)) || format!("{:p}", tagged) != base_fmt {
+                acc.fail("rc-tag", format!("{}: Rc::with_tag({:#x}) -> tag {:#x}, fmt {:p}", name, tag, tagged.tag(), tagged));
+            }
+            cell.store(tagged, SeqCst, &g);
+            let s = cell.load(SeqCst, &g);
+            stamps_seen.insert(cv::word_stamp(cv::snapshot_word(&s)));
+            let ok = !s.is_null()
+                && s.tag() == want
+                && s.as_ref() == obj.as_ref()
+                && format!("{:p}", s) == base_fmt
+                && s.ptr_eq(obj.snapshot(&g).with_tag(want))
+                && (want == 0) == s.ptr_eq(obj.snapshot(&g));
+            if !ok {
+                acc.fail("snapshot-sees-stamp", format!("{}: loaded Snapshot (stamp {}) differs from the stored pointer: tag {:#x} fmt {:p}", name, cv::word_stamp(cv::snapshot_word(&s)), s.tag(), s));
+            }
+            let rc = s.counted();
+            if rc.is_null() || rc.tag() != want || rc.as_ref() != obj.as_ref() || format!("{:p}", rc) != base_fmt || !rc.ptr_eq(&obj.clone().with_tag(want)) {
+                acc.fail("rc-sees-stamp", format!("{}: counted Rc differs from the stored pointer", name));
+            }
+            let wk = rc.downgrade();
+            if wk.is_null() || wk.tag() != want || format!("{:p}", wk) != base_fmt || !wk.ptr_eq(&obj.downgrade().with_tag(want)) {
+                acc.fail("weak-sees-stamp", format!("{}: Weak made from a stamped Rc differs: tag {:#x} fmt {:p}", name, wk.tag(), wk));
+            }
+            wcell.store(wk, SeqCst, &g);
+            let ws = wcell.load(SeqCst, &g);
+            if ws.is_null() || ws.tag() != want || format!("{:p}", ws) != base_fmt || !ws.ptr_eq(obj.snapshot(&g).downgrade().with_tag(want)) {
+                acc.fail("weak-snapshot-sees-stamp", format!("{}: WeakSnapshot differs: tag {:#x} fmt {:p}", name, ws.tag(), ws));
+            }
+            match ws.upgrade() {
+                Some(up) if up.as_ref() == obj.as_ref() && up.tag() == want => {}
+                _ => acc.fail("weak-snapshot-upgrade", format!("{}: upgrade of a stamped, tagged WeakSnapshot failed or changed the tag", name)),
+            }
+            // tagged / stamped null is null
+            let n: Rc<T> = Rc::null().with_tag(tag);
+            cell.store(n, SeqCst, &g);
+            let ns = cell.load(SeqCst, &g);
+            if !ns.is_null() || ns.as_ref().is_some() || ns.tag() != want {
+                acc.fail("tagged-null", format!("{}: tagged null loaded as non-null or lost its tag", name));
+            }
+            drop(rc);
+        }
+        // next epoch
+        {
+            let g = circ::cs();
+            g.flush();
+        }
+    }
+    if stamps_seen.len() < 8 {
+        acc.fail("harness-epochs", format!("{}: only {} distinct stamps exercised", name, stamps_seen.len()));
+    }
+    let g = circ::cs();
+    cell.store(Rc::null(), SeqCst, &g);
+    wcell.store(circ::Weak::null(), SeqCst, &g);
+    acc.sample(json!({"type": name, "counted_align": max_tag, "distinct_stamps": stamps_seen.len()}));
+}
+
+fn c11() -> PureResult {
+    let mut r = PureResult {
+        exhaustive: true,
+        rule: "every (address, tag, timestamp) of the grid for pointee alignments 1,2,4,8,16,64 through the real Tagged operations (round trips, invariance under the timestamp, null-ness, ptr_eq, formatting); plus real objects of alignment 8 and 64 stored at 16 consecutive epochs with 6 tags and observed through Rc, Snapshot, Weak and WeakSnapshot; distinct = distinct grid points".into(),
+        bounds: json!({"addresses": "0, 2^k (k < 60), all-ones below bit 60, pairs 2^j|2^k", "tags": "0..2*align, usize::MAX, 2^60, 2^63, ...", "timestamps": "0..=40", "alignments": [1, 2, 4, 8, 16, 64]}),
+        assumptions: vec!["the masks are bitwise, so the bit basis plus pairs is the stated bound, not all 2^60 addresses".into()],
+        ..Default::default()
+    };
+    let mut a = Acc::new("C11", "tagged");
+    tag_grid::<u8>(&mut a, "u8");
+    tag_grid::<u16>(&mut a, "u16");
+    tag_grid::<u32>(&mut a, "u32");
+    tag_grid::<u64>(&mut a, "u64");
+    tag_grid::<A16>(&mut a, "align16");
+    tag_grid::<A64>(&mut a, "align64");
+    a.finish(&mut r);
+    let mut b = Acc::new("C11", "public-api");
+    tag_public::<Item>(&mut b, "Item(align 4, block align 8)", |v| Item { v });
+    tag_public::<Big>(&mut b, "Big(align 64)", |v| Big { v });
+    b.finish(&mut r);
+    r
+}
+
+// ------------------------------------------------------------------------------------ C12
+
+fn c12() -> PureResult {
+    use cv::state as st;
+    let mut r = PureResult {
+        exhaustive: true,
+        rule: "(a) every combination of boundary field values x every updater: the updated field matches an unbounded-integer reference and the other fields are unchanged; (b) the modular age test for current epochs {0..200, 2^16+-8, 2^32+-8, 2^40+0..15} x true ages -2..64: never 'old' below age 3, always 'old' for ages 3..13; (c) the stamp merge over all age triples -2..40: merged decision old implies every input at least 3 old, and inside the window the merged stamp is the youngest".into(),
+        bounds: json!({"field_values": "0,1,2,2^28,max-1,max", "epochs": "0..200, 2^16+-8, 2^32+-8, 2^40+0..15", "ages": "-2..64"}),
+        ..Default::default()
+    };
+    // (a)
+    let mut a = Acc::new("C12", "fields");
+    let smax = (1u64 << st::STRONG_BITS) - 1;
+    let wmax = (1u64 << st::WEAK_BITS) - 1;
+    let svals = [0u64, 1, 2, 1 << 28, smax - 1, smax];
+    let wvals = [0u64, 1, 2, 1 << 28, wmax - 1, wmax];
+    if st::STRONG_BITS + st::WEAK_BITS + st::EPOCH_BITS + 2 != 64 {
+        a.fail("layout", format!("field widths {}+{}+{}+2 != 64", st::STRONG_BITS, st::WEAK_BITS, st::EPOCH_BITS));
+    }
+    let fields = |w: u64| (st::strong(w) as u64, st::weak(w) as u64, st::destructed(w), st::weaked(w), st::epoch(w) as u64);
+    for &s in svals.iter() {
+        for &wk in wvals.iter() {
+            for d in [false, true] {
+                for we in [false, true] {
+                    for e in 0..16u64 {
+                        // build through the API: from zero, one field at a time
+                        let mut w = 0u64;
+                        w = st::add_strong(w, s as u32);
+                        w = st::add_weak(w, wk as u32);
+                        w = st::with_destructed(w, d);
+                        w = st::with_weaked(w, we);
+                        w = st::with_epoch(w, e as usize);
+                        a.case(h2(w, 1));
+                        let want = (s, wk, d, we, e);
+                        if fields(w) != want {
+                            a.fail("field-build", format!("built {:?}, read back {:?}", want, fields(w)));
+                            continue;
+                        }
+                        // updaters
+                        for ne in (0..64usize).chain([usize::MAX, 1 << 16, (1 << 32) + 5]) {
+                            a.case(h2(w, 2 + ne as u64));
+                            let g = fields(st::with_epoch(w, ne));
+                            if g != (s, wk, d, we, (ne % 16) as u64) {
+                                a.fail("with-epoch", format!("with_epoch({}) on {:?} gave {:?}", ne, want, g));
+                            }
+                        }
+                        for k in [0u64, 1, 2, smax - s] {
+                            if s + k <= smax {
+                                a.case(h2(w, 100 + k));
+                                let g = fields(st::add_strong(w, k as u32));
+                                if g != (s + k, wk, d, we, e) {
+                                    a.fail("add-strong", format!("add_strong({}) on {:?} gave {:?}", k, want, g));
+                                }
+                            }
+                        }
+                        for k in [0u64, 1, 2, s] {
+                            if k <= s {
+                                a.case(h2(w, 200 + k));
+                                let g = fields(st::sub_strong(w, k as u32));
+                                if g != (s - k, wk, d, we, e) {
+                                    a.fail("sub-strong", format!("sub_strong({}) on {:?} gave {:?}", k, want, g));
+                                }
+                            }
+                        }
+                        for k in [0u64, 1, 2, wmax - wk] {
+                            if wk + k <= wmax {
+                                a.case(h2(w, 300 + k));
+                                let g = fields(st::add_weak(w, k as u32));
+                                if g != (s, wk + k, d, we, e) {
+                                    a.fail("add-weak", format!("add_weak({}) on {:?} gave {:?}", k, want, g));
+                                }
+                            }
+                        }
+                        // the raw fetch_add / fetch_sub units used on the word
+                        if s < smax && fields(w.wrapping_add(st::strong_unit())) != (s + 1, wk, d, we, e) {
+                            a.fail("strong-unit", format!("fetch_add(COUNT) on {:?} gave {:?}", want, fields(w.wrapping_add(st::strong_unit()))));
+                        }
+                        if wk > 0 && fields(w.wrapping_sub(st::weak_unit())) != (s, wk - 1, d, we, e) {
+                            a.fail("weak-unit", format!("fetch_sub(WEAK_COUNT) on {:?} gave {:?}", want, fields(w.wrapping_sub(st::weak_unit()))));
+                        }
+                        for f in [false, true] {
+                            if fields(st::with_destructed(w, f)) != (s, wk, f, we, e) {
+                                a.fail("with-destructed", format!("with_destructed({}) on {:?}", f, want));
+                            }
+                            if fields(st::with_weaked(w, f)) != (s, wk, d, f, e) {
+                                a.fail("with-weaked", format!("with_weaked({}) on {:?}", f, want));
+                            }
+                        }
+                    }
+                }
+            }
+        }
+    }
+    a.sample(json!({"strong_bits": st::STRONG_BITS, "weak_bits": st::WEAK_BITS, "epoch_bits": st::EPOCH_BITS}));
+    a.finish(&mut r);
+    // (b)
+    let mut b = Acc::new("C12", "age-test");
+    let mut epochs: Vec<usize> = (0..=200).collect();
+    for base in [1usize << 16, 1 << 32] {
+        for d in 0..=16 {
+            epochs.push(base - 8 + d);
+        }
+    }
+    for d in 0..16 {
+        epochs.push((1usize << 40) + d);
+    }
+    let mut beyond_old = 0u64;
+    let mut beyond_recent = 0u64;
+    for &cur in epochs.iter() {
+        for age in -2i64..=64 {
+            let stamp_epoch = cur as i64 - age;
+            if stamp_epoch < 0 {
+                continue;
+            }
+            b.case(h2(cur as u64, (age + 2) as u64));
+            let stamp = (stamp_epoch as usize % 16) as u32;
+            let old = st::reclaim_decision(stamp, cur);
+            if age < 3 && old {
+                b.fail("classified-old-too-early", format!("epoch {}: a stamp of true age {} is classified old enough", cur, age));
+            }
+            if (3..=13).contains(&age) && !old {
+                b.fail("window-stamp-classified-recent", format!("epoch {}: a stamp of true age {} (inside the window) is classified too recent", cur, age));
+            }
+            if age > 13 {
+                if old {
+                    beyond_old += 1
+                } else {
+                    beyond_recent += 1
+                }
+            }
+        }
+    }
+    b.sample(json!({"epochs": epochs.len(), "ages_beyond_window_classified_old": beyond_old, "ages_beyond_window_classified_recent": beyond_recent}));
+    b.finish(&mut r);
+    // (c)
+    let mut c = Acc::new("C12", "stamp-merge");
+    for &cur in [5usize, 16, 17, 30, 31, 200, (1 << 16) + 3].iter() {
+        for a1 in -1i64..=40 {
+            for a2 in -1i64..=40 {
+                for a3 in -1i64..=40 {
+                    let ages = [a1, a2, a3];
+                    if ages.iter().any(|&a| cur as i64 - a < 0) {
+                        continue;
+                    }
+                    c.case(h2(cur as u64, ((a1 + 1) * 1764 + (a2 + 1) * 42 + a3 + 1) as u64));
+                    let stamps: Vec<isize> = ages.iter().map(|&a| ((cur as i64 - a) % 16) as isize).collect();
+                    let merged = st::merge_stamps(cur, &stamps);
+                    let old = st::reclaim_decision(merged as u32, cur);
+                    let young = *ages.iter().min().unwrap();
+                    if old && young < 3 {
+                        c.fail("merge-loses-young-stamp", format!("epoch {}: ages {:?} merged to stamp {} which is classified old", cur, ages, merged));
+                    }
+                    if ages.iter().all(|a| (-1..=13).contains(a)) {
+                        let want = ((cur as i64 - young) % 16) as isize;
+                        if merged != want {
+                            c.fail("merge-not-youngest", format!("epoch {}: ages {:?} merged to stamp {}, the youngest is {}", cur, ages, merged, want));
+                        }
+                    }
+                }
+            }
+        }
+    }
+    c.sample(json!({"triples_per_epoch": 42 * 42 * 42}));
+    c.finish(&mut r);
+    r
+}
+
+// ------------------------------------------------------------------------------------ C19
+
+fn hash_of<T: Hash>(t: &T) -> u64 {
+    let mut h = DefaultHasher::new();
+    t.hash(&mut h);
+    h.finish()
+}
+
+fn c19() -> PureResult {
+    let mut r = PureResult {
+        exhaustive: true,
+        rule: "all pairs and triples of 9 pointer kinds {null, null|tag, a, a|tag, a under another stamp, b (equal contents), c (smaller), d (larger), a again} for Rc and for Snapshot: ==, partial_cmp, cmp and hash equal those of Option<&T>; Eq/Ord laws; ptr_eq = same object and same tag regardless of stamp".into(),
+        bounds: json!({"kinds": 9, "pairs": 81, "triples": 729}),
+        ..Default::default()
+    };
+    let mut acc = Acc::new("C19", "eq-ord-hash");
+    // objects
+    let a = Rc::new(Item { v: 5 });
+    let b = Rc::new(Item { v: 5 });
+    let c = Rc::new(Item { v: 3 });
+    let d = Rc::new(Item { v: 9 });
+    // a stamped at another epoch: travels through a link
+    let cell: AtomicRc<Item> = AtomicRc::null();
+    for _ in 0..3 {
+        let g = circ::cs();
+        g.flush();
+    }
+    let a_stamped = {
+        let g = circ::cs();
+        cell.store(a.clone(), SeqCst, &g);
+        drop(g);
+        cell.swap(Rc::null(), SeqCst)
+    };
+    if cv::word_stamp(cv::rc_word(&a_stamped)) == cv::word_stamp(cv::rc_word(&a)) {
+        acc.fail("harness-stamp", "could not produce a differently stamped pointer".into());
+    }
+    // (pointer, referent identity, tag, referent)
+    let ptrs: Vec<(Rc<Item>, usize, usize)> = vec![
+        (Rc::null(), 0, 0),
+        (Rc::null().with_tag(1), 0, 1),
+        (a.clone(), 1, 0),
+        (a.clone().with_tag(1), 1, 1),
+        (a_stamped, 1, 0),
+        (b.clone(), 2, 0),
+        (c.clone(), 3, 0),
+        (d.clone(), 4, 0),
+        (a.clone(), 1, 0),
+    ];
+    let g = circ::cs();
+    let snaps: Vec<circ::Snapshot<Item>> = ptrs.iter().map(|p| p.0.snapshot(&g)).collect();
+    let n = ptrs.len();
+    for i in 0..n {
+        for j in 0..n {
+            acc.case(h2(i as u64, j as u64));
+            let (x, y) = (&ptrs[i].0, &ptrs[j].0);
+            let (ox, oy) = (x.as_ref(), y.as_ref());
+            let ctx = || format!("kinds {} and {}", i, j);
+            if (x == y) != (ox == oy) {
+                acc.fail("rc-eq", format!("{}: Rc == gives {}, Option<&T> gives {}", ctx(), x == y, ox == oy));
+            }
+            if x.partial_cmp(y) != ox.partial_cmp(&oy) || x.cmp(y) != ox.cmp(&oy) {
+                acc.fail("rc-ord", format!("{}: Rc ordering {:?}, Option<&T> ordering {:?}", ctx(), x.cmp(y), ox.cmp(&oy)));
+            }
+            if hash_of(x) != hash_of(&ox) {
+                acc.fail("rc-hash", format!("{}: Rc hash differs from Option<&T> hash", ctx()));
+            }
+            if x == y && hash_of(x) != hash_of(y) {
+                acc.fail("rc-hash-law", format!("{}: equal pointers hash differently", ctx()));
+            }
+            let same = ptrs[i].1 == ptrs[j].1 && ptrs[i].2 == ptrs[j].2;
+            if x.ptr_eq(y) != same {
+                acc.fail("rc-ptr-eq", format!("{}: ptr_eq = {}, identity+tag says {}", ctx(), x.ptr_eq(y), same));
+            }
+            if (x == y) != (y == x) || x.cmp(y) != y.cmp(x).reverse() {
+                acc.fail("rc-symmetry", format!("{}: == not symmetric or cmp not antisymmetric", ctx()));
+            }
+            let (sx, sy) = (snaps[i], snaps[j]);
+            if (sx == sy) != (ox == oy) || sx.partial_cmp(&sy) != ox.partial_cmp(&oy) || sx.cmp(&sy) != ox.cmp(&oy) || hash_of(&sx) != hash_of(&ox) {
+                acc.fail("snapshot-eq-ord-hash", format!("{}: Snapshot relations differ from Option<&T>", ctx()));
+            }
+            if sx.ptr_eq(sy) != same {
+                acc.fail("snapshot-ptr-eq", format!("{}: Snapshot::ptr_eq = {}, identity+tag says {}", ctx(), sx.ptr_eq(sy), same));
+            }
+            // null is distinct and smallest
+            if ox.is_none() && oy.is_some() && !(x < y) {
+                acc.fail("null-not-smallest", format!("{}: null is not below a non-null pointer", ctx()));
+            }
+            for k in 0..n {
+                acc.case(h2(i as u64, (j * 16 + k) as u64 + 1000));
+                let z = &ptrs[k].0;
+                if x == y && y == z && x != z {
+                    acc.fail("rc-transitivity", format!("kinds {} {} {}: == not transitive", i, j, k));
+                }
+                if x <= y && y <= z && !(x <= z) {
+                    acc.fail("rc-transitivity", format!("kinds {} {} {}: <= not transitive", i, j, k));
+                }
+                let sz = snaps[k];
+                if sx <= sy && sy <= sz && !(sx <= sz) {
+                    acc.fail("snapshot-transitivity", format!("kinds {} {} {}: <= not transitive", i, j, k));
+                }
+            }
+        }
+        if ptrs[i].0 != ptrs[i].0 || ptrs[i].0.cmp(&ptrs[i].0) != std::cmp::Ordering::Equal {
+            acc.fail("rc-reflexivity", format!("kind {}: not equal to itself", i));
+        }
+    }
+    acc.sample(json!({"kinds": ["null", "null|1", "a", "a|1", "a (other stamp)", "b == a by contents", "c < a", "d > a", "a"], "stamp_a": cv::word_stamp(cv::rc_word(&ptrs[2].0)), "stamp_a2": cv::word_stamp(cv::rc_word(&ptrs[4].0))}));
+    acc.finish(&mut r);
+    drop(g);
+    r
+}
+
+pub fn run(prop: &str, tier: &str, known: &[crate::runner::Known]) -> Option<PureResult> {
+    match prop {
+        "C07" => Some(c07(tier, known)),
+        "C11" => Some(c11()),
+        "C12" => Some(c12()),
+        "C19" => Some(c19()),
+        _ => None,
+    }
+}
+
+// ------------------------------------------------------------------------------------ C07
+
+fn c07(tier: &str, known: &[crate::runner::Known]) -> PureResult {
+    use std::sync::{Arc, Mutex};
+    let quick = tier == "quick";
+    let ns: Vec<usize> = if quick {
+        vec![1000, 1023, 1025, 10_000, 100_000]
+    } else {
+        vec![1000, 1023, 1024, 1025, 2049, 10_000, 100_000, 1_000_000, 2_000_000]
+    };
+    let stacks: Vec<usize> = vec![0, 2048, 1024, 512, 256, 128, 64];
+    let mut cases = vec![];
+    for shape in 0..crate::c07::SHAPES.len() {
+        for &n in ns.iter() {
+            for &st in stacks.iter() {
+                for ctx in 0..2 {
+                    cases.push((shape, n, st, ctx));
+                }
+            }
+        }
+    }
+    let total = cases.len();
+    let queue = Arc::new(Mutex::new(cases));
+    let results: Arc<Mutex<Vec<((usize, usize, usize, usize), Option<i32>, String)>>> = Arc::new(Mutex::new(vec![]));
+    let mut hs = vec![];
+    let nthreads = std::thread::available_parallelism().map(|n| n.get()).unwrap_or(4).min(16);
+    for _ in 0..nthreads {
+        let queue = queue.clone();
+        let results = results.clone();
+        hs.push(std::thread::spawn(move || loop {
+            let c = queue.lock().unwrap().pop();
+            let Some(c) = c else { break };
+            let out = std::process::Command::new(std::env::current_exe().unwrap())
+                .args(["c07case", &c.0.to_string(), &c.1.to_string(), &c.2.to_string(), &c.3.to_string()])
+                .output();
+            match out {
+                Ok(o) => {
+                    let text = String::from_utf8_lossy(&o.stdout).trim().to_string();
+                    let err = String::from_utf8_lossy(&o.stderr);
+                    let last = err.lines().last().unwrap_or("").to_string();
+                    results.lock().unwrap().push((c, o.status.code(), format!("{} {}", text, last)));
+                }
+                Err(e) => results.lock().unwrap().push((c, Some(-99), e.to_string())),
+            }
+        }));
+    }
+    for h in hs {
+        let _ = h.join();
+    }
+    let mut r = PureResult {
+        exhaustive: true,
+        rule: "every point of the grid shape {chain, left comb, right comb, balanced tree, spine with leaves} x n x thread stack size x reclaiming context {plain call, thread-local destructor at thread exit}; each case is a child process that builds the structure iteratively, ages the links, drops the head on a thread with that stack and runs rounds; distinct = distinct grid points".into(),
+        bounds: json!({"n": ns, "stack_kib": stacks, "contexts": ["call", "tls-destructor"], "profile": "release, feature circ_verif compiled in but no hooks installed"}),
+        assumptions: vec!["frame sizes are those of this build (release, hooks compiled in but inactive)".into()],
+        ..Default::default()
+    };
+    let mut acc = Acc::new("C07", "stack");
+    let res = results.lock().unwrap();
+    if res.len() != total {
+        r.machinery.push(format!("only {} of {} cases ran", res.len(), total));
+    }
+    for (c, code, text) in res.iter() {
+        acc.case(h2((c.0 * 4 + c.3) as u64, h2(c.1 as u64, c.2 as u64)));
+        let desc = format!("shape {} n={} stack={} KiB context={}", crate::c07::SHAPES[c.0], c.1, if c.2 == 0 { "main".to_string() } else { c.2.to_string() }, if c.3 == 0 { "call" } else { "tls-destructor" });
+        match code {
+            Some(0) => {}
+            Some(-99) => r.machinery.push(format!("{}: could not run: {}", desc, text)),
+            Some(3) => acc.fail("nodes-not-reclaimed", format!("{}: {}", desc, text)),
+            other => {
+                // killed by a signal (stack overflow aborts the process) or panicked
+                let scen = if c.2 != 0 && c.2 <= 128 { "c07/stack<=128KiB" } else { "c07/stack>128KiB" };
+                match known.iter().position(|k| crate::runner::known_match(k, "C07", scen, "stack-overflow")) {
+                    Some(i) => r.known_hits.push(i),
+                    None => acc.fail("stack-overflow", format!("{}: child process died ({:?}) {}", desc, other, text)),
+                }
+            }
+        }
+    }
+    acc.sample(json!({"case": "chain n=100000 stack=256 KiB call", "observation": "child exits 0 after printing DESTRUCTED 100000 of 100000"}));
+    acc.finish(&mut r);
+    r
+}
+
+/// Replay of a grid counterexample: the grid is small, so it is re-enumerated and the recorded
+/// case is looked up.
+pub fn replay(v: &Value) -> i32 {
+    let prop = v["property"].as_str().unwrap_or("");
+    let (known, _) = crate::runner::load_known();
+    match run(prop, "quick", &known) {
+        None => {
+            eprintln!("no grid check for {}", prop);
+            2
+        }
+        Some(r) => {
+            for x in r.violations.iter() {
+                if x.kind == v["kind"].as_str().unwrap_or("") && x.detail == v["detail"].as_str().unwrap_or("") {
+                    println!("REPRODUCED property={} kind={} : {}", prop, x.kind, x.detail);
+                    return 1;
+                }
+            }
+            if let Some(x) = r.violations.first() {
+                println!("the recorded case does not fail any more; another one does: {}: {}", x.kind, x.detail);
+                return 1;
+            }
+            println!("no violation on this tree");
+            0
+        }
+    }
 }
